@@ -20,6 +20,7 @@ A program is (funcs, main): funcs[i] is the body of function f<i>; f<i> may only
 """
 
 PRELUDE3 = r'''exec 3>&1
+Q() { return $1; }
 L() { local id=$1; shift; eval "local k=\${K$id:-0}"; eval "K$id=\$((k+1))"; echo "m$id" >&3; local n=$#; if ((k >= n)); then k=$((n-1)); fi; shift $k; return $1; }
 '''
 PRELUDE = r'''L() { local id=$1; shift; eval "local k=\${K$id:-0}"; eval "K$id=\$((k+1))"; echo "m$id"; local n=$#; if ((k >= n)); then k=$((n-1)); fi; shift $k; return $1; }
@@ -116,7 +117,15 @@ def r_cmd(c, ind):
     if k == "X":
         return "exit" + opt(c[1])
     if k == "O":
-        return "set %s%s" % ("-" if c[2] else "+", c[1])
+        if c[1] == "e":
+            return "set %se" % ("-" if c[2] else "+")
+        if c[1] == "p":
+            return "set %so pipefail" % ("-" if c[2] else "+")
+        if c[1] == "i":
+            return "shopt -%s inherit_errexit" % ("s" if c[2] else "u")
+        raise ValueError(c[1])
+    if k == "Pi":
+        return " | ".join(["Q %d" % x for x in c[1]] + [r_cmd(c[2], ind) if c[2][0] not in LIST_LEVEL else "{ " + r_list(c[2], ind) + "; }"])
     if k == "Cs":
         ind["in_cs"] = ind.get("in_cs", 0) + 1
         body = r_list(c[1], ind)
@@ -189,6 +198,9 @@ def wire(c, out):
         out += [k, "-" if c[1] is None else str(c[1])]
     elif k == "O":
         out += ["O", c[1], "1" if c[2] else "0"]
+    elif k == "Pi":
+        out += ["Pi", str(len(c[1]))] + [str(x) for x in c[1]]
+        wire(c[2], out)
     else:
         raise ValueError(k)
     return out
@@ -278,6 +290,12 @@ class Gen:
             return ("Su", body)
         if k < 0.93 and ncalls:
             return self.call(ncalls)
+        if "pipe" in self.feats and r.random() < 0.4:
+            n = r.choice([1, 1, 2, 3])
+            last = self.cmd(depth - 1, 0, infunc, ncalls)
+            if last[0] == "Ev":
+                last = ("Gr", last)   # bash: errexit inside `… | eval` leaves with status 1, not the failing status (quirk)
+            return ("Pi", [r.choice([0, 0, 1, 3]) for _ in range(n)], last)
         if "cs" in self.feats and r.random() < 0.5:
             return ("Cs", self.lst(depth - 1, 0, infunc, ncalls))
         if "ev" in self.feats and r.random() < 0.5:
@@ -301,7 +319,8 @@ class Gen:
         # own wording), so option toggles are never generated under `!`
         if "opts" in self.feats and self.in_bang == 0 and r.random() < 0.12:
             self.has_opts = True
-            return ("O", "e", r.random() < 0.7)
+            o = "e" if "opts2" not in self.feats else r.choice(["e", "e", "p", "i"])
+            return ("O", o, r.random() < 0.7)
         k = r.random()
         if k < 0.5:
             return self.leaf()
